@@ -5,6 +5,7 @@ import ast
 import contextlib
 import datetime
 import io
+import itertools
 import random
 from typing import Any, Dict, Iterable, List, Optional
 
@@ -777,6 +778,40 @@ class C19(Prop):
             for op in ("intersect", "difference", "eq", "ne"):
                 for r in (v, v[:1], v[1:], [v[-1], "zz"], ["zz"], list(reversed(v)), [e + "a" for e in v]):
                     add(op, v, r, _keep=True)
+        # set-valued relations are about MEMBERSHIP, not about the shape of the list that carries the members: resource
+        # lists (and policy lists) with repeated entries, in any order, shorter than / as long as / longer than the
+        # other operand, whose distinct members are a subset of / equal to / a superset of / disjoint from it.
+        # Every list of length 0..3 over a three-letter alphabet (all multiset shapes: aa, aba, aab, aaa, ...) plus
+        # longer ones, against values with and without repeats; the same over ints.
+        for alpha, zz in ((["a", "b", "c"], "zz"), ([1, 2, 3], 99)):
+            small = alpha if alpha[0] == "a" else alpha[:2]
+            rs: List[List[Any]] = [list(t) for n in range(0, 4) for t in itertools.product(small, repeat=n)]
+            a, b, c3 = alpha
+            rs += [[a, a, a, a], [a, b, a, b], [a, b, c3, a], [c3, c3, b, a, a], [b, b, b, b, b, b], [a, zz, a], [zz, zz]]
+            for _ in range(4 if quick else 60):
+                rs.append([rng.choice(alpha) for _ in range(rng.randint(4, 7))])
+            vs: List[List[Any]] = [[a], [a, b], [b, c3], [a, b, c3], [a, a], [a, a, b], [b, a, b, a], []]
+            if alpha[0] != "a":
+                vs = [[a], [a, b], [b, b], [a, a, b]]
+            for v in vs:
+                for op in ("intersect", "difference"):
+                    for i, r in enumerate(rs):
+                        base = {"op": op, "value": v, "r": r, "vt": None, "now": NOW, "key": "k", "_keep": True}
+                        out.append(dict(base, kind="clause"))
+                        if i == 0:
+                            out.append(dict(base, kind="emit"))
+                for op in ("in", "ni", "not-in"):
+                    for r in alpha + [zz]:
+                        add(op, v, r, _keep=True)
+            for r in rs:
+                if len(r) != len(set(r)):
+                    for x in (a, c3):
+                        out.append({"kind": "clause", "op": "contains", "value": x, "r": r, "vt": None, "now": NOW,
+                                    "key": "k", "_keep": True})
+                    for n in (len(set(r)), len(r)):
+                        for vt in ("size", "unique_size"):
+                            out.append({"kind": "clause", "op": "eq", "value": n, "r": r, "vt": vt, "now": NOW,
+                                        "key": "k", "_keep": True})
         for op in OPS:
             # strings
             for v in (svals if not quick else rng.sample(svals, 9) + ["abc", "back\\slash"]):
@@ -855,11 +890,11 @@ class C19(Prop):
                 v = ["v1", "v2"] if op == "in" else "v1"
                 for r in ("v1", "v0", "v2"):
                     add(op, v, r, key=key)
-        if quick and len(out) > 9000:
+        if quick and len(out) > 10300:
             keep = [c for c in out if c.get("vt") in ("age", "expiration") or c["op"] is None or c["op"] in ("le", "lte")
                     or c.get("_keep")]
             rest = [c for c in out if c not in keep]
-            out = keep + rng.sample(rest, 9000 - min(9000, len(keep)))
+            out = keep + rng.sample(rest, 10300 - min(10300, len(keep)))
         return out
 
     # ---- implementation -----------------------------------------------------------------------
